@@ -9,6 +9,7 @@ TRANSLATOR = ["dispatch", "validators"]
 
 TRUSTED = [
     "Coq 8.16.1 kernel (coqc), vm_compute for gen_shapes_ok / gen_adapters_ok; no axioms (every theorem: Closed under the global context)",
+    "translator rs2v module `validators`: determinism scan of every non-test function of the 30 message files except the codecs (parse_from_block4, to_mt_string): flags iteration over std HashSet/HashMap values (membership-only use is order-free and accepted), clock, RNG and interior mutability; it is syntactic and per file: helper code outside src/messages is not scanned",
     "translator rs2v module `validators`: reads the statement sequence of all 30 validate_network_rules bodies (two early-return idioms, callee order, whether the flag is passed), the body shape of callees that receive the flag, SwiftMessage::validate, the trait delegation, plugin validate_mt_message",
     "the rule functions themselves are universally quantified in the theorem (any Option / Vec result); a callee that receives the flag is modelled by its list of candidate errors, justified by the push/return shape the translator checks",
     "correspondence/oracle: the library's four entry points on generated valid and rule-violating messages (prefix, emptiness, adapters, repeat call, Debug unchanged)",
@@ -35,8 +36,8 @@ def run(ctx):
             for k in range(nmut):
                 t2 = toks
                 kinds = []
-                for _ in range(rng.choice([1, 1, 2, 3])):
-                    r = mtgen.mutate(rng, t2, rng.choice(["delete", "dup", "ccy", "code", "amount", "dupseq", "swap", "ccy", "code"]))
+                for _ in range(rng.choice([1, 1, 2, 3, 5])):
+                    r = mtgen.mutate(rng, t2, rng.choice(["delete", "dup", "ccy", "code", "amount", "dupseq", "swap", "ccy", "code", "copy", "copy"]))
                     if r:
                         kinds.append(r[0]); t2 = r[1]
                 if kinds:
@@ -112,4 +113,4 @@ def run(ctx):
         ctx.samples = [{"origin": msgs[0][2], "full": by[0]["typed"].get("rules")}]
     return finish(ctx, level="proof", trusted=TRUSTED,
                   assumptions=["rule functions are pure functions of the message (no interior mutability, no global state); checked only by the repeat-call and Debug-unchanged observations",
-                               "HashSet/HashMap iteration order inside a rule function is outside the aggregate model; observed by the repeat-call comparison"])
+                               "helper code outside src/messages (parser/utils.rs, field methods) is assumed deterministic; observed by the repeat-call comparison (7 repetitions)"])
